@@ -28,7 +28,7 @@ fn released_ok(evs: &[Ev], block: (usize, usize, usize)) -> u64 {
     for e in evs {
         match *e {
             Ev::Dealloc { ptr, size, align } if ptr == block.0 => ok = (size == block.1 && align == block.2) as u64,
-            Ev::BadDealloc { .. } | Ev::UnknownDealloc { .. } => return 0,
+            Ev::BadDealloc { .. } | Ev::UnknownDealloc { .. } | Ev::Overrun { .. } => return 0,
             _ => {}
         }
     }
